@@ -5,7 +5,7 @@ import (
 	"time"
 
 	"github.com/rulego/streamsql/stream"
-	"github.com/rulego/streamsql/utils/simrt"
+	"verif.local/simrt"
 )
 
 type tableHandle struct {
